@@ -11,7 +11,7 @@ RULE = ('every function, class, method, partial and callable instance found one 
         'a seeded third of ~1300 modules; thorough: all), ~60 adversarial sources (partials of forwarding functions with arguments the callee cannot take, bodies building partial(*args, **kwargs), unhashable callables, unevaluable postponed annotations, async, generators, walrus, match, comprehensions, '
         'starred calls, global/nonlocal, class bodies, decorators, lambdas sharing a line or sitting in a literal, PEP 695 syntax, '
         'self- and mutually-forwarding functions, unresolvable / builtin / raising callees, exec-defined functions, builtins) and '
-        'seeded forwarding programs (the same relation, narrowing included, on every generated wrapper): inspect succeeds => the three retrievals return an UpgradedSignature; inspect raises E => '
+        'generated functools.partial objects (functions, bound methods, classes, callable instances of up to four parameters x bound positional counts up to one too many x up to three keywords in any order), every adversarial source also compiled as the __main__ module, and seeded forwarding programs (the same relation, narrowing included, on every generated wrapper): inspect succeeds => the three retrievals return an UpgradedSignature; inspect raises E => '
         'the same type; plain functions/methods: acc(result) on non-colliding shapes within acc(own parameter list) (stubs); Sphinx '
         'hook returns its inputs or the string forms of the evaluated signature and never raises. Non-trivial: a callable whose '
         'signature discovery refined; distinct by dotted name.')
@@ -28,6 +28,8 @@ def run(ctx):
     if ctx.shard == 0:
         w_corpus.run_adversarial(ctx)
         ctx.floor('C07.adversarial_objects', 40)
+    w_corpus.run_generated_partials(ctx)
+    ctx.floor('C07.generated_partials', 100)
     saved = ctx.deadline
     ctx.deadline = ctx.clock() + {'quick': 10, 'thorough': 120}[ctx.tier]
     w_auto.run(ctx, ('C07',), {'quick': 3000, 'thorough': 300000}[ctx.tier])
